@@ -50,6 +50,12 @@ func ZZ_C16_Reader() {
 	ze := actor.ZZNewEngine("node:1")
 	procs := []*actor.ZZRecProc{ze.Register("t/0"), ze.Register("t/1")}
 	r := &streamReader{remote: &Remote{engine: ze.E}, deserializer: zzDeser{}}
+	// the node's own infrastructure actors are registered under well-known ids too: a stream writer towards some
+	// other peer (a real streamWriter with its real inbox; it is never dialled here) - a peer may address it
+	sw := newStreamWriter(ze.E, actor.NewPID("node:1", "router/zz"), "node:9", nil, 0).(*streamWriter)
+	sw.stream, sw.rawconn = &zzPipe{}, zzConn{} // as after a successful dial
+	ze.RegisterProc(sw.PID().ID, sw)
+	sw.inbox.Start(sw)
 
 	env := &Envelope{}
 	typePool := []string{"ty.A", "ty.B", "unknown"}
@@ -60,7 +66,7 @@ func ZZ_C16_Reader() {
 	nTg := zzrt.Choose(3)
 	for i := 0; i < nTg; i++ {
 		// registered targets and one that nobody answers to
-		ids := []string{"t/0", "t/1", "t/none"}
+		ids := []string{"t/0", "t/1", "t/none", sw.PID().ID}
 		env.Targets = append(env.Targets, actor.NewPID("node:1", ids[zzrt.Choose(len(ids))]))
 	}
 	nS := zzrt.Choose(3)
@@ -87,6 +93,7 @@ func ZZ_C16_Reader() {
 		r.Receive(&zzStream{envs: []*Envelope{env}})
 	}()
 	zzrt.Assert(!escaped, "C16:inbound-envelope-panics-reader")
+	zzrt.Quiesce() // whatever was handed to the node's own actors is processed by their workers (a panic there kills the node)
 
 	seen := map[int]bool{}
 	for k, p := range procs {
